@@ -785,7 +785,9 @@ class StmtMixin(object):
         for name, (x0, step) in accum.items():
             env.vars[name] = Num(x0 + k * step)
         for name in carried:
-            env.vars[name] = Unknown("carried:" + name)
+            # "accum": every iteration computes the new value from the old one (a recurrence the evaluator could not put in
+            # closed form - its own limit); "carried": on some path the value of an earlier iteration is simply kept
+            env.vars[name] = Unknown(("accum:" if _self_referential(body, name) else "carried:") + name)
         self.assign(st.target, elem, env)
         # marks
         for b in self.live_buffers():
@@ -1090,6 +1092,19 @@ def _read_before_write(body, name):
                 if isinstance(t, (ast.Tuple, ast.List)) and any(isinstance(e, ast.Name) and e.id == name for e in t.elts):
                     return False
     return False
+
+
+def _self_referential(body, name):
+    """every assignment to name in the loop body reads name on its right-hand side"""
+    seen = False
+    for n in ast.walk(ast.Module(body=body, type_ignores=[])):
+        if isinstance(n, ast.AugAssign) and isinstance(n.target, ast.Name) and n.target.id == name:
+            seen = True
+        elif isinstance(n, ast.Assign) and any(isinstance(t, ast.Name) and t.id == name for t in n.targets):
+            if not any(isinstance(x, ast.Name) and x.id == name for x in ast.walk(n.value)):
+                return False
+            seen = True
+    return seen
 
 
 def _single_top_level_increment(body, name):
